@@ -4,8 +4,8 @@
    A history is a list of calls (ProcessDescriptor / Close by pool index, Open); `run` yields one
    observation per call: closed ids, error, ids of Open() after the call; None = the call panicked. *)
 From Gots Require Import Base.Prelude Model.SegDesc Model.State Spec.Trackers
-  Proofs.SegProofs Proofs.StateBasics Proofs.StateRun Proofs.StateDup Proofs.StateInv Proofs.StateWrites Proofs.StateSpec.
-From Gots Require Exec.StateExec.
+  Proofs.SegProofs Proofs.StateBasics Proofs.StateRun Proofs.StateDup Proofs.StateInv Proofs.StateWrites Proofs.StateSpec Proofs.StatePinnedWitness.
+From Gots Require Exec.StateExec Model.StatePinned.
 Import SegDesc State.
 Local Open Scope nat_scope.
 
@@ -228,6 +228,29 @@ Example C10_checker_rejects_f10_observation :
     [ Trackers.mkTobs [] 0 (Some [0]); Trackers.mkTobs [] 0 (Some [0]); Trackers.mkTobs [1; 0] 0 (Some [2]);
       Trackers.mkTobs [] 0 (Some [2]) ]%N.
 Proof. vm_compute. split; reflexivity. Qed.
+
+(* ---- the pinned tree (before the F10 repairs) violates the property: witnesses ---- *)
+(* Model/StatePinned.v = state.go as pinned at the three repaired places.  Each history below is an F10
+   replay of bin/gen/c10.py; goexec on the pinned tree shows exactly these observations
+   (`view` = closed ids, error, Open() after the call). *)
+Theorem C10_pinned_never_panics_refuted :
+  Forall (call_in_pool pool_a) hist_a /\
+  map view (StatePinned.run pool_a NewState hist_a) = [ ([], 0, Ok [0]); ([], 0, Ok [0]); ([1; 0], 0, Panic) ]%N.
+Proof. exact pinned_open_panics. Qed.
+Print Assumptions C10_pinned_never_panics_refuted.
+
+Theorem C10_pinned_close_bookkeeping_refuted :
+  Forall (call_in_pool pool_b) hist_b /\
+  map view (StatePinned.run pool_b NewState hist_b) = [ ([], 0, Ok [0]); ([], 0, Ok [0]); ([0], 0, Panic) ]%N.
+Proof. exact pinned_close_stale. Qed.
+Print Assumptions C10_pinned_close_bookkeeping_refuted.
+
+Theorem C10_pinned_dup_twice_in_row_refuted :
+  Forall (call_in_pool pool_c) hist_c /\
+  map view (StatePinned.run pool_c NewState hist_c) =
+    [ ([], 0, Ok [0]); ([0], 0, Ok [1]); ([1], 0, Ok [1]); ([1], 0, Ok [1]) ]%N.
+Proof. exact pinned_vss_accepted_twice. Qed.
+Print Assumptions C10_pinned_dup_twice_in_row_refuted.
 
 (* non-vacuity: a history with a breakaway, a descriptor closing through it, a resumption, an explicit
    close and a duplicate satisfies the hypotheses (indices in the pool, writes <= 10) and shows every
